@@ -54,8 +54,9 @@ C02_Checks(r) ==
   ELSE LET o == r.out.ok IN
     IF r.act = "ctor" THEN {<<"C02.ctor", TRUE, C02_Ctor(r.args.s, o)>>}
     ELSE IF r.act = "build" THEN {<<"C02.build", TRUE, C02_Build(r.args.kw, o)>>}
-    ELSE IF C02_ModifierApplies(r.act) THEN {<<"C02." \o r.act, TRUE, C02_Modifier(r.act, r.args, r.self, o)>>}
-    ELSE {}
+    ELSE (IF C02_ModifierApplies(r.act) THEN {<<"C02." \o r.act, TRUE, C02_Modifier(r.act, r.args, r.self, o)>>} ELSE {})
+         \cup (IF C02_KeptApplies(r.act) /\ Has_(r, "self") /\ Ok(r.self.val) /\ Ok(o.val)
+               THEN {<<"C02.kept." \o r.act, TRUE, C02_Kept(r.act, r.args, r.self, o)>>} ELSE {})
 
 \* ---------------------------------------------------------------- C06
 C06_Checks(r) ==
